@@ -53,7 +53,11 @@ def criteria_giles(alpha: float, ml: np.array, rmse: float) -> bool:
     :param rmse: root-mean square error
     :return: true if the convergence criteria has been met
     """
-    rem = max(ml[-1], ml[-2] / 2**alpha, ml[-3] / 2 ** (2 * alpha)) / (2**alpha - 1)
+    # extrapolation from the last three levels (from the levels available when there are fewer than three)
+    last_levels = min(3, len(ml))
+    rem = max(ml[-1 - k] / 2 ** (k * alpha) for k in range(last_levels)) / (
+        2**alpha - 1
+    )
     return rem <= np.sqrt(THETA) * rmse
 
 
